@@ -182,10 +182,10 @@ pub fn std_menu(s: &Sim, o: &MenuOpt) -> Vec<Act> {
     // time: deadlines of the pending batch and of submitted batches
     let pd = pending_due(s);
     let mut ts: Vec<u64> = times(s, pd, o.time_boundaries);
-    for b in s.m.batches.values() {
-        if b.status == MStatus::Submitted {
-            ts.extend(times(s, b.due, o.time_boundaries));
-        }
+    // unbonding deadlines of the oldest and the newest submitted batch
+    let subm: Vec<&MBatch> = s.m.batches.values().filter(|b| b.status == MStatus::Submitted).collect();
+    for b in subm.first().into_iter().chain(subm.last()) {
+        ts.extend(times(s, b.due, o.time_boundaries));
     }
     ts.sort();
     ts.dedup();
@@ -228,7 +228,25 @@ pub fn std_menu(s: &Sim, o: &MenuOpt) -> Vec<Act> {
     if o.withdraw_all_pairs {
         let maxid = s.m.batches.len() as u64 + 1;
         for who in &o.withdrawers {
-            for b in 0..=maxid {
+            let ids: Vec<u64> = if maxid <= 6 {
+                (0..=maxid).collect()
+            } else {
+                // many batches: the boundary ids, the first/last batch of every status, and the
+                // first and last received batch in which this account still has a request
+                let mut v: Vec<u64> = vec![0, 1, s.m.pending, maxid];
+                for st in [MStatus::Submitted, MStatus::Received] {
+                    let of: Vec<u64> = s.m.batches.values().filter(|b| b.status == st).map(|b| b.id).collect();
+                    v.extend(of.first());
+                    v.extend(of.last());
+                }
+                let mine: Vec<u64> = s.m.batches.values().filter(|b| b.status == MStatus::Received && b.requests.contains_key(who)).map(|b| b.id).collect();
+                v.extend(mine.first());
+                v.extend(mine.last());
+                v.sort();
+                v.dedup();
+                v
+            };
+            for b in ids {
                 a.push(withdraw(who, b));
             }
         }
@@ -294,6 +312,10 @@ pub fn std_menu(s: &Sim, o: &MenuOpt) -> Vec<Act> {
     if o.halt_resume {
         if halted {
             a.push(resume(&adm(), st.total_native_token.u128(), st.total_liquid_stake_token.u128(), st.total_reward_amount.u128()));
+            if o.slashed_resume && dev_left && st.total_liquid_stake_token.is_zero() && st.total_native_token.is_zero() {
+                // staked total without any LST: the next stake sweeps the ownerless stake to fees
+                a.push(resume(&adm(), 500, 0, 0));
+            }
             if o.slashed_resume && dev_left && st.total_native_token.u128() > 10 {
                 a.push(resume(&adm(), st.total_native_token.u128() * 3 / 4, st.total_liquid_stake_token.u128(), st.total_reward_amount.u128()));
             }
